@@ -39,7 +39,7 @@ STAT_NAMES = ["packets", "noop", "inserted", "coalesced_append", "coalesced_prep
 
 class Prop:
     pid = "C16"
-    vo_check = ["theories/Gro/Check.vo"]
+    vo_check = ["theories/Gro/Check.vo", "theories/Gen/GroAst.vo"]
     vo_props = ["theories/Props/C16.vo"]
     k_names = ["written-buffers(tun.handleGRO == Gro.Model.handle_gro: toWrite, virtio headers, packets, byte-exact)",
                "write-path((*NativeTun).Write on one device, call after call == handle_gro with fresh tables per call: datagrams on the fd, byte-exact)"]
@@ -57,11 +57,14 @@ class Prop:
         "one's-complement sum of tun/checksum.go is modelled at value level (ocfold); its bit-level mirror is C17's Offload/Checksum.v",
         "numMerged/bufsIndex (uint16) are exact for batches below 65536 packets (device: 128)",
     ]
-    trusted_extra = ["Base/Ints.v: primitive Uint63 literals carry packet bytes in generated case files only",
+    trusted_extra = ["translator harness/cmd/groast (go/parser: bodies of packetIsGROCandidate and ipHeadersCanCoalesce as a deep-embedded AST; unix.IPPROTO_TCP/UDP through a two-entry table; unrecognised constructs become Unknown nodes; notes/C16-cand-ast.md)",
+                     "Base/Ints.v: primitive Uint63 literals carry packet bytes in generated case files only",
                      "uapi numbers (VIRTIO_NET_HDR_*, IPPROTO_*) are literals in Gro/Model.v and Gro/KernelSpec.v, asserted against x/sys/unix by the harness on every run"]
 
     def __init__(self):
         self.dir = os.path.join(vlib.OUT, "C16")
+        # translator G2: packetIsGROCandidate / ipHeadersCanCoalesce regenerated from the source on every run
+        self.translators = [lambda: vlib.gen_file("groast", os.path.join("Gen", "GroAst.v"), ["-repo", vlib.REPO])]
 
     def _load(self, d):
         meta = json.load(open(os.path.join(d, "cases.json")))
